@@ -26,7 +26,7 @@ package vsix
 //@   loop 0 sig "for _, ref := range m.References" invariant !bad
 //@
 //@ func verify
-//@   property C02
+//@   property C02 C11
 //@   requires f != nil
 //@   ghost xsG *xmldsig.Signature = nil
 //@   ghost manOK bool = false
